@@ -217,6 +217,22 @@ pub fn gen_c04(o: &mut Out, tier: &str, sd: u64) {
                 let by = format!("bits:{}", join(&sy.amounts));
                 mprove(o, &mut r, "ctx.bitlen-large", "R", w, &sy.ctx(), &bly, &by, &sy.opens, "-");
             }
+            // a used bit-length byte above 64 in the context, under a proof that is genuine for 64 bits in that slot
+            // (transcript over the context bytes as given): the declared length is what counts
+            {
+                let bl64: Vec<usize> = vec![64; w / 64];
+                let s64 = statement(&mut r, &bl64);
+                let b64 = format!("bits:{}", join(&s64.amounts));
+                for declared in [65u8, 96, 128, 200, 255] {
+                    for slot in [0usize, bl64.len() - 1] {
+                        let mut c = s64.ctx(); c[256 + slot] = declared;
+                        mprove(o, &mut r, "ctx.bitlen-declared-above-64", "R", w, &c, &bl64, &b64, &s64.opens, "-");
+                    }
+                }
+                // and a declared length below what the proof was made for (the other lengths unchanged)
+                let mut c = s64.ctx(); c[256] = 32;
+                mprove(o, &mut r, "ctx.bitlen-declared-below", "R", w, &c, &bl64, &b64, &s64.opens, "-");
+            }
             // sum of bit lengths != width: a valid 64-bit context/proof sent to the wrong instruction is a length error;
             // here the bit lengths are altered under an otherwise honest proof (compare only)
             let mut c = st.ctx(); c[256] = c[256].wrapping_add(1);
